@@ -2561,6 +2561,10 @@ class SSHConnection(SSHPacketHandler, asyncio.Protocol):
         if self._auth:
             self._auth.cancel()
 
+        # Options of a key or certificate offered in an earlier attempt
+        # must not carry over to the credential accepted later
+        cast(SSHServerConnection, self).reset_key_and_cert_options()
+
         self._auth = lookup_server_auth(cast(SSHServerConnection, self),
                                              self._username, method, packet)
 
@@ -6199,6 +6203,12 @@ class SSHServerConnection(SSHConnection):
             not self.get_key_option('no-touch-required', False))
 
         return key
+
+    def reset_key_and_cert_options(self) -> None:
+        """Forget key and certificate options from a previous auth attempt"""
+
+        self._key_options = {}
+        self._cert_options = None
 
     def public_key_auth_supported(self) -> bool:
         """Return whether or not public key authentication is supported"""
